@@ -26,13 +26,178 @@ func (x *World) runMisc(op *model.Op, res *model.Result) *Violation {
 		x.W.Resources().Remove(id)
 	case model.OpInvalid:
 		return x.runInvalid(op, res)
+	case model.OpRegisterComp:
+		// registers dummy type number Offset+NDummies (model already counted it unless it must panic)
+		n := x.Cfg.Offset + x.M.NDummies
+		if res.Panics {
+			n++
+		}
+		before := len(ecs.ComponentIDs(x.W))
+		id := ecs.TypeID(x.W, reflect.ArrayOf(n, reflect.TypeFor[int8]()))
+		if int(id.Index()) != before {
+			return x.viol("registry", "new component type got ID %d, expected the next free ID %d", id.Index(), before)
+		}
+	case model.OpLoadEntities:
+		d := x.W.Unsafe().DumpEntities()
+		x.W.Unsafe().LoadEntities(&d)
 	default:
 		harness("op %v not supported by the general driver", op.K)
 	}
 	return nil
 }
 
+// Invalid call kinds (Op.Inv).
+const (
+	InvStale     = 1 // op.N = method code, op.E = dead entity index or ZeroTarget for the zero entity
+	InvAddHas    = 2 // add components the entity already has
+	InvRemLacks  = 3 // remove components the entity lacks
+	InvEmpty     = 4 // empty component list (op.N: 0 Unsafe.Add, 1 Unsafe.Remove, 2 Unsafe.Exchange)
+	InvNoTarget  = 5 // relation component without target (op.N: 0 new entity, 1 add)
+	InvDeadTgt   = 6 // dead entity as relation target (op.N: 0 new entity, 1 add, 2 set relation)
+	InvRelNotRel = 7 // relation target for a non-relation component
+)
+
+// Method codes for InvStale.
+const (
+	MGet = iota
+	MHasAll
+	MAdd
+	MAddFn
+	MSet
+	MRemove
+	MGetRelation
+	MSetRelations
+	MExAdd = 10 + iota - 8
+	MExAddFn
+	MExRemove
+	MExExchange
+	MExExchangeFn
+	MRemoveEntity = 20
+	MCopyEntity   = 21
+	MUnsafeIDs    = 30
+	MUnsafeGet    = 31
+	MUnsafeHas    = 32
+	MUnsafeGetRel = 33
+)
+
 func (x *World) runInvalid(op *model.Op, res *model.Result) *Violation {
-	harness("invalid ops not implemented yet")
+	u := x.W.Unsafe()
+	tuple := op.Tuple()
+	zeros := make([]int64, len(tuple))
+	rels := x.relArgs(op.T)
+	switch op.Inv {
+	case InvStale:
+		h := x.handle(op.E)
+		switch {
+		case op.N <= MSetRelations:
+			m := x.mapper(op.Path, tuple)
+			switch op.N {
+			case MGet:
+				m.Get(h)
+			case MHasAll:
+				m.HasAll(h)
+			case MAdd:
+				m.Add(h, zeros, rels)
+			case MAddFn:
+				m.AddFn(h, nil, rels)
+			case MSet:
+				m.Set(h, zeros)
+			case MRemove:
+				m.Remove(h)
+			case MGetRelation:
+				m.GetRelation(h, op.T[0].C)
+			case MSetRelations:
+				m.SetRelations(h, rels)
+			}
+		case op.N <= MExExchangeFn:
+			path := op.Path
+			if path != model.PathUnsafe {
+				path = model.PathExchange
+			}
+			ex := x.exchanger(path, tuple, op.Rm.List())
+			switch op.N {
+			case MExAdd:
+				ex.Add(h, zeros, rels)
+			case MExAddFn:
+				ex.AddFn(h, nil, rels)
+			case MExRemove:
+				ex.Remove(h)
+			case MExExchange:
+				ex.Exchange(h, zeros, rels)
+			case MExExchangeFn:
+				ex.ExchangeFn(h, nil, rels)
+			}
+		case op.N == MRemoveEntity:
+			x.W.RemoveEntity(h)
+		case op.N == MCopyEntity:
+			x.W.CopyEntity(h)
+		case op.N == MUnsafeIDs:
+			u.IDs(h)
+		case op.N == MUnsafeGet:
+			u.Get(h, x.Env.ID(tuple[0]))
+		case op.N == MUnsafeHas:
+			u.Has(h, x.Env.ID(tuple[0]))
+		case op.N == MUnsafeGetRel:
+			u.GetRelation(h, x.Env.ID(tuple[0]))
+		}
+	case InvAddHas:
+		h := x.H[op.E]
+		if op.Path == model.PathExchange {
+			x.exchanger(op.Path, tuple, nil).Add(h, zeros, rels)
+		} else {
+			x.mapper(op.Path, tuple).Add(h, zeros, rels)
+		}
+	case InvRemLacks:
+		h := x.H[op.E]
+		if op.Path == model.PathExchange {
+			x.exchanger(op.Path, nil, op.Rm.List()).Remove(h)
+		} else {
+			x.mapper(op.Path, op.Rm.List()).Remove(h)
+		}
+	case InvEmpty:
+		h := x.H[op.E]
+		switch op.N {
+		case 0:
+			u.Add(h)
+		case 1:
+			u.Remove(h)
+		case 2:
+			u.Exchange(h, nil, nil)
+		}
+	case InvNoTarget, InvDeadTgt, InvRelNotRel:
+		m := x.mapper(op.Path, tuple)
+		switch op.N {
+		case 0:
+			m.NewEntity(zeros, rels)
+		case 1:
+			m.Add(x.H[op.E], zeros, rels)
+		case 2:
+			m.SetRelations(x.H[op.E], rels)
+		}
+	default:
+		harness("unknown invalid kind %d", op.Inv)
+	}
+	return nil
+}
+
+func (x *World) checkResources() *Violation {
+	for n := range resTypes {
+		id := ecs.ResourceTypeID(x.W, resTypes[n])
+		has := x.W.Resources().Has(id)
+		if has != (x.M.Res[n] != 0) {
+			return x.viol("resource", "Resources.Has(%d)=%v, model says %v", n, has, x.M.Res[n] != 0)
+		}
+		got := x.W.Resources().Get(id)
+		if !has {
+			if got != nil {
+				return x.viol("resource", "Resources.Get(%d) non-nil for an absent resource", n)
+			}
+			continue
+		}
+		r, ok := got.(*res0)
+		if !ok || r.V != x.M.Res[n] {
+			return x.viol("resource", "Resources.Get(%d) = %v, model says token %d", n, got, x.M.Res[n])
+		}
+	}
 	return nil
 }
